@@ -21,7 +21,8 @@ Local Open Scope Z_scope.
 (* ---------------------------------------------------------------- inputs *)
 Inductive entry : Type := EStartTls | ELegacy.
 (* the user's certfail handler: none, or a scripted answer for the i-th invocation *)
-Inductive cbk : Type := CbNone | CbScript (answers : list Z) (dflt : Z).
+(*   or an answer that depends on which certificate it is shown (0 leaf, 1 intermediate, 2 root ...) *)
+Inductive cbk : Type := CbNone | CbScript (answers : list Z) (dflt : Z) | CbByCert (answers : list (Z * Z)) (dflt : Z).
 (* what the peer does after the client gave up *)
 Inductive peer_after : Type := PeerCloses | PeerSilent.
 
@@ -31,9 +32,11 @@ Record scenario : Type := mkScenario {
   s_capath : bool;         (* xmpp_conn_set_capath called *)
   s_cb : cbk;              (* xmpp_conn_set_certfail_handler *)
   s_entry : entry;
+  s_mandatory : bool;      (* XMPP_CONN_FLAG_MANDATORY_TLS *)
   s_ssl_ok : bool;         (* tls_new's resources: allocation, SSL_CTX_new, default paths, SSL_new, SSL_set_fd *)
   s_ca_ok : bool;          (* SSL_CTX_load_verify_locations succeeds (only consulted when a CA location is set) *)
-  s_stream : list Z;       (* OpenSSL: preverify_ok of each verify-callback invocation, in order *)
+  s_stream : list (Z * Z); (* OpenSSL: (preverify_ok, which certificate the verdict is about) of each
+                              verify-callback invocation, in order *)
   s_hs_ok : bool;          (* OpenSSL/peer: the handshake completes apart from the certificate verdict *)
   s_tls_err : Z;           (* tls->lasterror as tls_start leaves it: SSL_get_error of the last SSL_connect, or
                               SSL_ERROR_SYSCALL when libstrophe's own handshake deadline expired *)
@@ -58,7 +61,7 @@ Inductive out : Type :=
 | OWire (tls : bool) (w : welem)          (* bytes handed to conn->intf.write; tls = which interface was active *)
 | OTlsNew (probe : bool) (cfg : option sslcfg)
 | OVerify (pre ret : Z)                   (* one invocation of the verify callback OpenSSL holds *)
-| OCertfail (idx : nat) (ans : Z)         (* one invocation of the user's handler *)
+| OCertfail (idx : nat) (shown ans : Z)   (* one invocation of the user's handler: the certificate it was shown *)
 | OTlsStart (ok : bool)
 | OTlsFree | OTlsStop | OSockClose
 | OConnect (sec : bool)                   (* XMPP_CONN_CONNECT, with xmpp_conn_is_secured at that moment *)
@@ -118,31 +121,43 @@ Definition shape_ret (g : Z) : option Z :=
 Definition ret_val (code ans : Z) : Z := if code =? 100 then ans else code.
 
 (* returns (value handed back to OpenSSL, events, handler invocations so far) *)
-Definition tls_verify (pre : Z) (cb : cbk) (n : nat) : Z * list out * nat :=
+(* which certificate _tls_verify converts for the handler: the one the error is about
+   (X509_STORE_CTX_get_current_cert, accessor 1) or always the leaf (get0_cert, accessor 2) *)
+Definition shown_cert (current : Z) : Z :=
+  if tls_verify_cert_accessor =? 1 then current else if tls_verify_cert_accessor =? 2 then 0 else 9.
+Fixpoint lookup (k : Z) (l : list (Z * Z)) (d : Z) : Z :=
+  match l with [] => d | (k', v) :: r => if k =? k' then v else lookup k r d end.
+Definition cb_answer (cb : cbk) (n : nat) (shown : Z) : option Z :=
+  match cb with
+  | CbNone => None
+  | CbScript a d => Some (nth n a d)
+  | CbByCert l d => Some (lookup shown l d)
+  end.
+
+Definition tls_verify (pre current : Z) (cb : cbk) (n : nat) : Z * list out * nat :=
   match (if pre =? 1 then shape_ret 1 else None) with
   | Some r => (ret_val r pre, [], n)
   | None =>
-    match cb with
-    | CbNone =>
+    match cb_answer cb n (shown_cert current) with
+    | None =>
         match shape_ret 2 with
         | Some r => (ret_val r 0, [], n)
         | None => (0, [OCrash], n)
         end
-    | CbScript a d =>
-        let ans := nth n a d in
+    | Some ans =>
         match shape_ret 0 with
-        | Some r => (ret_val r ans, [OCertfail n ans], S n)
-        | None => (0, [OCertfail n ans], S n)
+        | Some r => (ret_val r ans, [OCertfail n (shown_cert current) ans], S n)
+        | None => (0, [OCertfail n (shown_cert current) ans], S n)
         end
     end
   end.
 
 (* ---------------------------------------------------------------- OpenSSL's use of the callback (contract) *)
-Fixpoint ssl_verify (cfg : sslcfg) (cb : cbk) (stream : list Z) (n : nat) : bool * list out * nat :=
+Fixpoint ssl_verify (cfg : sslcfg) (cb : cbk) (stream : list (Z * Z)) (n : nat) : bool * list out * nat :=
   match stream with
   | [] => (true, [], n)
-  | pre :: rest =>
-      match (if v_cb cfg =? 1 then tls_verify pre cb n else (pre, [], n)) with
+  | (pre, cur) :: rest =>
+      match (if v_cb cfg =? 1 then tls_verify pre cur cb n else (pre, [], n)) with
       | (r, evs, n') =>
           if r =? 0 then (false, evs ++ [OVerify pre r], n')
           else match ssl_verify cfg cb rest n' with
@@ -214,11 +229,32 @@ Definition peer_ends (sc : scenario) (c : conn) : conn * list out :=
       end
   end.
 
-(* xmpp_disconnect followed by the rest of the connection's life *)
-Definition give_up (sc : scenario) (c : conn) : conn * list out :=
-  let '(c1, o1) := send_phase c [WClose] in
+(* the rest of the connection's life once the handler has returned with q queued *)
+Definition finish (sc : scenario) (c : conn) (q : list welem) : conn * list out :=
+  let '(c1, o1) := send_phase c q in
   let '(c2, o2) := peer_ends sc c1 in
   (c2, o1 ++ o2 ++ [OIs (is_secured c2)]).
+
+(* _auth on a connection without TLS (the harness server offers SASL PLAIN before TLS as well):
+   refused when TLS is mandatory, otherwise the password goes out with <auth mechanism="PLAIN"> *)
+Definition auth_clear (sc : scenario) (c : conn) : conn * list out * list welem :=
+  if s_mandatory sc && negb (is_secured c) then let '(c', o) := conn_disconnect c in (c', o, [])
+  else (c, [], [WAuth]).
+
+(* what a caller does when conn_tls_start failed, read off the source by the translator:
+   1 xmpp_disconnect, 2 conn_disconnect, 3 _auth, 4 conn_open_stream, 6 return; anything else has no effect here *)
+Fixpoint react (sc : scenario) (calls : list Z) (c : conn) (o : list out) (q : list welem)
+  : conn * list out * list welem * bool :=
+  match calls with
+  | [] => (c, o, q, false)
+  | k :: r =>
+      if k =? 6 then (c, o, q, true)
+      else if k =? 1 then react sc r c o (q ++ match c_state c with Connected => [WClose] | Disconnected => [] end)
+      else if k =? 2 then let '(c', o') := conn_disconnect c in react sc r c' (o ++ o') q
+      else if k =? 3 then let '(c', o', q') := auth_clear sc c in react sc r c' (o ++ o') (q ++ q')
+      else if k =? 4 then react sc r c o (q ++ [WHeader])
+      else react sc r c o q
+  end.
 
 (* the negotiation on a protected stream with the harness server: header, SASL PLAIN, header, bind,
    XMPP_CONN_CONNECT, the user's handler calls xmpp_disconnect, the server answers </stream:stream> *)
@@ -234,21 +270,30 @@ Definition run (sc : scenario) : conn * list out :=
       (* conn_established *)
       match conn_tls_start sc conn0 with
       | (c1, o1, true) => let '(c2, o2) := negotiate_rest c1 in (c2, o1 ++ o2)
-      | (c1, o1, false) => let '(c2, o2) := conn_disconnect c1 in (c2, o1 ++ o2 ++ [OIs (is_secured c2)])
+      | (c1, o1, false) =>
+          (* "if (conn_tls_start(conn) != 0) { conn_disconnect(conn); return; }", else on to conn_open_stream *)
+          let '(c2, o2, q, stopped) := react sc tls_legacy_failure_calls c1 [] [] in
+          let '(c3, o3) := finish sc c2 (if stopped then q else q ++ [WHeader]) in
+          (c3, o1 ++ o2 ++ o3)
       end
   | EStartTls =>
-      (* conn_open_stream; <stream:features> offering starttls only; _auth probes tls_new *)
+      (* conn_open_stream; <stream:features> offering starttls and SASL PLAIN; _auth probes tls_new *)
       let o0 := wire conn0 [WHeader] in
       match tls_new sc with
       | None =>
-          (* "If we couldn't init tls, it isn't there, so go on": nothing else on offer -> xmpp_disconnect *)
-          let '(c1, o1) := give_up sc conn0 in (c1, o0 ++ [OTlsNew true None] ++ o1)
+          (* "If we couldn't init tls, it isn't there, so go on": _auth again, now without TLS *)
+          let '(c1, o1, q) := auth_clear sc conn0 in
+          let '(c2, o2) := finish sc c1 q in (c2, o0 ++ [OTlsNew true None] ++ o1 ++ o2)
       | Some cfg =>
           let o1 := [OTlsNew true (Some cfg); OTlsFree] ++ wire conn0 [WStartTls] in
           (* <proceed/> -> _handle_proceedtls_default *)
           match conn_tls_start sc conn0 with
           | (c1, o2, true) => let '(c2, o3) := negotiate_rest c1 in (c2, o0 ++ o1 ++ o2 ++ o3)
-          | (c1, o2, false) => let '(c2, o3) := give_up sc c1 in (c2, o0 ++ o1 ++ o2 ++ o3)
+          | (c1, o2, false) =>
+              (* the failure branch of _handle_proceedtls_default *)
+              let '(c2, o3, q, _) := react sc tls_proceed_failure_calls c1 [] [] in
+              let '(c3, o4) := finish sc c2 q in
+              (c3, o0 ++ o1 ++ o2 ++ o3 ++ o4)
           end
       end
   end.
